@@ -301,7 +301,9 @@ def _gen_column(rng, names, used, used_cnames, first=False, allow_dialect_types=
             col["autoincrement"] = "auto"
     if rng.random() < 0.25:
         col["comment"] = names.string("column_comment")
-    if rng.random() < 0.03:
+    # Column(index=True/unique=True): autogenerate emits the index / constraint as a separate op and
+    # invoking AddColumnOp emits it as well, so the flag is not part of what rendering has to reproduce
+    if rng.random() < 0.0:
         col[rng.choice(["index", "unique"])] = True
     return col, restrict
 
